@@ -37,6 +37,9 @@ fn byte_strings() -> Vec<Vec<u8>> {
 const RATES: [f64; 3] = [0.0, 1.0, 0.5];
 
 fn report(tag: &str, what: &str, value: &str, ent: &str, rate: f64, got: &str) {
+    // the first reports are enough for the driver (it takes the first line per property); the count is in the final assert
+    static SHOWN: std::sync::atomic::AtomicUsize = std::sync::atomic::AtomicUsize::new(0);
+    if SHOWN.fetch_add(1, std::sync::atomic::Ordering::Relaxed) >= 200 { return; }
     println!("NATIVE-VIOLATION [{}] {} value={} entropy={} rate={} got={}", tag, what, value, ent, rate, got);
 }
 fn hex(b: &[u8]) -> String { b.iter().map(|x| format!("{:02x}", x)).collect() }
@@ -162,6 +165,98 @@ fn verif_native_scalar_mutators() {
                 if let Some(m) = r { if !(m == i.saturating_add(1) || m == i.saturating_sub(1)) { bad += 1; report("C16", "offbyone.mutate_memo_index", &i.to_string(), &ent, rate, &m.to_string()); } }
             }
         });
+    }
+    assert!(bad == 0, "{} native contract violations", bad);
+}
+
+// ---- type confusion (C16, bounded): real emissions of every encoding shape, every source of the family ----
+fn tc_value_pushing(op: u8) -> bool {
+    matches!(op, 0x49 | 0x4a | 0x4b | 0x4d | 0x4c | 0x8a | 0x8b | 0x46 | 0x47 | 0x53 | 0x56 | 0x8c | 0x58 | 0x8d
+        | 0x42 | 0x43 | 0x8e | 0x54 | 0x55 | 0x5d | 0x6c | 0x29 | 0x74 | 0x85 | 0x86 | 0x87 | 0x7d | 0x64 | 0x4e | 0x88 | 0x89)
+}
+fn tc_class_of(op: u8) -> u8 {
+    match op {
+        0x49 | 0x4a | 0x4b | 0x4d | 0x4c | 0x8a | 0x8b => 1,
+        0x46 | 0x47 => 2,
+        0x53 | 0x56 | 0x8c | 0x58 | 0x8d => 3,
+        0x42 | 0x43 | 0x8e | 0x54 | 0x55 => 4,
+        0x5d | 0x6c => 5,
+        0x29 | 0x74 | 0x85 | 0x86 | 0x87 => 6,
+        0x7d | 0x64 => 7,
+        0x4e => 8,
+        0x88 | 0x89 => 9,
+        _ => 0,
+    }
+}
+/// `rep` is exactly ONE complete value-pushing opcode (any of them, with its whole argument and nothing after it)
+fn tc_one_complete(rep: &[u8]) -> bool {
+    if rep.is_empty() || !tc_value_pushing(rep[0]) { return false; }
+    let le = |b: &[u8]| -> Option<usize> { let mut n = 0u64; for (i, x) in b.iter().enumerate() { n |= (*x as u64) << (8 * i); } usize::try_from(n).ok() };
+    let want: Option<usize> = match rep[0] {
+        0x4a => Some(5), 0x4b => Some(2), 0x4d => Some(3), 0x47 => Some(9),
+        0x8a | 0x8c | 0x43 | 0x55 => rep.get(1).map(|n| 2 + *n as usize),
+        0x8b | 0x58 | 0x42 | 0x54 => if rep.len() >= 5 { le(&rep[1..5]).and_then(|n| n.checked_add(5)) } else { None },
+        0x8d | 0x8e => if rep.len() >= 9 { le(&rep[1..9]).and_then(|n| n.checked_add(9)) } else { None },
+        0x49 | 0x4c | 0x46 | 0x53 | 0x56 => rep.iter().position(|b| *b == b'\n').map(|p| p + 1),
+        _ => Some(1),
+    };
+    want == Some(rep.len())
+}
+fn tc_emissions() -> Vec<Vec<u8>> {
+    let mut v: Vec<Vec<u8>> = vec![
+        vec![], vec![0x4a, 1, 2, 3, 4], vec![0x4b, 7], vec![0x4d, 1, 2], vec![0x47, 0x40, 9, 0x21, 0xfb, 0x54, 0x44, 0x2d, 0x18],
+        b"I123\n".to_vec(), b"L-5L\n".to_vec(), b"F1.5\n".to_vec(), b"S'ab'\n".to_vec(), b"Vxyz\n".to_vec(),
+        vec![0x8a, 2, 0x95, 0x2e], vec![0x8b, 3, 0, 0, 0, 0x95, 0x2e, 0x95],
+        vec![0x5d], vec![0x29], vec![0x7d], vec![0x4e], vec![0x88], vec![0x89], vec![0x85], vec![0x6c],
+        // not value-pushing: POP, BINPUT 3, MARK, MEMOIZE, STOP, GLOBAL
+        vec![0x30], vec![0x71, 3], vec![0x28], vec![0x94], vec![0x2e], b"cos\nsystem\n".to_vec(),
+    ];
+    // counted payloads whose bytes look like opcodes (FRAME, STOP, PROTO): leftovers would be visible as such
+    for (op, w) in [(0x8cu8, 1usize), (0x43, 1), (0x55, 1), (0x58, 4), (0x42, 4), (0x54, 4), (0x8d, 8), (0x8e, 8)] {
+        for n in [0usize, 1, 12, 40] {
+            let mut e = vec![op];
+            e.extend_from_slice(&(n as u64).to_le_bytes()[..w]);
+            for i in 0..n { e.push([0x95u8, 0x2e, 0x80, 0x8e][i % 4]); }
+            v.push(e);
+        }
+    }
+    v
+}
+
+#[test]
+fn verif_native_typeconfusion() {
+    let mut bad = 0usize;
+    let prefixes: [&[u8]; 3] = [&[], &[0x80, 0x04], &[0x80, 0x05, 0x95, 9, 0, 0, 0, 0, 0, 0, 0, 0x4e]];
+    for rate in RATES {
+        for pre in prefixes {
+            for del in tc_emissions() {
+                for unsafe_mode in [false, true] {
+                    for_sources(|src, ent| {
+                        let mut output: Vec<u8> = pre.to_vec();
+                        output.extend_from_slice(&del);
+                        let before = output.clone();
+                        let snapshot = EmissionSnapshot {
+                            stack_depth: 1, output_len: pre.len(), memo_size: 0,
+                            stack_delta: Vec::new(), output_delta: del.clone(), memo_delta: Vec::new(),
+                        };
+                        let fired = TypeConfusionMutator::new(unsafe_mode).post_process(&snapshot, &mut output, src, rate);
+                        let val = format!("{}|{}", hex(pre), hex(&del));
+                        if !unsafe_mode && (fired || output != before) { bad += 1; report("C16", "typeconfusion did something in safe mode", &val, &ent, rate, &hex(&output)); }
+                        if rate == 0.0 && (fired || output != before) { bad += 1; report("C15", "typeconfusion rewrote emitted bytes at rate 0", &val, &ent, rate, &hex(&output)); }
+                        if (del.is_empty() || !tc_value_pushing(del[0])) && (fired || output != before) { bad += 1; report("C16", "typeconfusion touched an opcode that pushes no value", &val, &ent, rate, &hex(&output)); }
+                        if rate == 1.0 && unsafe_mode && !del.is_empty() && tc_value_pushing(del[0]) && !fired { bad += 1; report("C15", "typeconfusion did not fire at rate 1", &val, &ent, rate, &hex(&output)); }
+                        if !fired && output != before { bad += 1; report("C16", "typeconfusion changed the output without firing", &val, &ent, rate, &hex(&output)); }
+                        if fired {
+                            let ok = output.len() >= pre.len() && &output[..pre.len()] == pre && {
+                                let rep = &output[pre.len()..];
+                                tc_one_complete(rep) && !del.is_empty() && tc_class_of(rep[0]) != tc_class_of(del[0])
+                            };
+                            if !ok { bad += 1; report("C16", "typeconfusion: the emission must be replaced by exactly one complete value-pushing opcode of another kind, earlier bytes untouched", &val, &ent, rate, &hex(&output)); }
+                        }
+                    });
+                }
+            }
+        }
     }
     assert!(bad == 0, "{} native contract violations", bad);
 }
